@@ -20,10 +20,10 @@ type TNode struct {
 }
 
 type C19Plan struct {
-	Tree    *TNode    `json:"tree,omitempty"`
-	Cfg     *Cfg      `json:"cfg,omitempty"` // alternative: a real configuration error
-	Planted []Planted `json:"planted,omitempty"`
-	ViaReconf bool    `json:"via_reconfigure,omitempty"`
+	Tree      *TNode    `json:"tree,omitempty"`
+	Cfg       *Cfg      `json:"cfg,omitempty"` // alternative: a real configuration error
+	Planted   []Planted `json:"planted,omitempty"`
+	ViaReconf bool      `json:"via_reconfigure,omitempty"`
 }
 
 type c19 struct{}
